@@ -1,5 +1,349 @@
-//! C15 - monitor not written yet.
+//! C15 - PLIST queries agree with each other and with the entry sequence.
+//!
+//! Refuting event: any of files / files_prefixed / install_cmds /
+//! uninstall_cmds / depends / build_depends / conflicts / pkgdirs / pkgrmdirs
+//! / pkgname / display / is_preserve differs from the reference view of the
+//! entry sequence (one fold, `oracle::plist::views`), or the four file views
+//! do not hold the same files in the same order.
+//!
+//! The sequences come from C14's line generator and go through the parser.
+//! C15 speaks about "any parsed packing list": when the parsed sequence is
+//! not the generated one (that is C14's refuting event, reported there) the
+//! case is counted under `skipped/..` and not judged here.
 
-use crate::fw::Cx;
+use super::c14::{debug_entries, debug_model, Q};
+use crate::fw::{CaseResult, Cx, Ev};
+use crate::gen::plist::{self as gp, Line};
+use crate::oracle::plist as op;
+use crate::rng::hash_strs;
+use pkgsrc::plist::{Plist, PlistEntry};
+use std::ffi::OsStr;
+use std::os::unix::ffi::OsStrExt;
 
-pub fn run(_cx: &mut Cx) {}
+fn shows(v: &[Vec<u8>]) -> String {
+    format!("[{}]", v.iter().map(|b| format!("{:?}", Q(b))).collect::<Vec<_>>().join(", "))
+}
+
+fn cmp_bytes(ev: &mut Ev, what: &str, got: Vec<Vec<u8>>, want: &[Vec<u8>]) -> Result<(), String> {
+    ev.eval();
+    if got != want {
+        return Err(format!("{what}() = {}, expected {}", shows(&got), shows(want)));
+    }
+    Ok(())
+}
+
+fn cmp_entries(
+    ev: &mut Ev,
+    what: &str,
+    got: &[&PlistEntry],
+    model: &[&PlistEntry],
+    want: &[usize],
+) -> Result<(), String> {
+    ev.eval();
+    let g = op::keys(got.iter().copied());
+    let w: Vec<&PlistEntry> = want.iter().map(|&i| model[i]).collect();
+    if g != op::keys(w.iter().copied()) {
+        return Err(format!("{what}() = {got:?}, expected {w:?}"));
+    }
+    Ok(())
+}
+
+fn osv(v: Vec<&OsStr>) -> Vec<Vec<u8>> {
+    v.into_iter().map(|x| x.as_bytes().to_vec()).collect()
+}
+fn strv(v: Vec<&str>) -> Vec<Vec<u8>> {
+    v.into_iter().map(|x| x.as_bytes().to_vec()).collect()
+}
+fn sv(v: &[String]) -> Vec<Vec<u8>> {
+    v.iter().map(|x| x.as_bytes().to_vec()).collect()
+}
+
+fn files_of(v: &[&PlistEntry]) -> Vec<Vec<u8>> {
+    v.iter()
+        .filter_map(|e| match e {
+            PlistEntry::File(f) => Some(f.as_bytes().to_vec()),
+            _ => None,
+        })
+        .collect()
+}
+
+/// Compare all twelve queries of `p` with the reference views of `model`.
+fn compare(ev: &mut Ev, p: &Plist, model: &[&PlistEntry]) -> Result<op::Views, String> {
+    let want = op::views(model);
+    let files = osv(p.files());
+    let prefixed: Vec<Vec<u8>> = p.files_prefixed().into_iter().map(|x| x.as_bytes().to_vec()).collect();
+    let install = p.install_cmds();
+    let uninstall = p.uninstall_cmds();
+
+    cmp_bytes(ev, "files", files.clone(), &want.files)?;
+    cmp_bytes(ev, "files_prefixed", prefixed.clone(), &want.files_prefixed)?;
+    cmp_entries(ev, "install_cmds", &install, model, &want.install)?;
+    cmp_entries(ev, "uninstall_cmds", &uninstall, model, &want.uninstall)?;
+    cmp_bytes(ev, "depends", strv(p.depends()), &sv(&want.depends))?;
+    cmp_bytes(ev, "build_depends", strv(p.build_depends()), &sv(&want.build_depends))?;
+    cmp_bytes(ev, "conflicts", strv(p.conflicts()), &sv(&want.conflicts))?;
+    cmp_bytes(ev, "pkgdirs", osv(p.pkgdirs()), &want.pkgdirs)?;
+    cmp_bytes(ev, "pkgrmdirs", osv(p.pkgrmdirs()), &want.pkgrmdirs)?;
+    ev.eval();
+    let name = p.pkgname();
+    if name != want.pkgname.as_deref() {
+        return Err(format!("pkgname() = {name:?}, expected {:?}", want.pkgname));
+    }
+    ev.eval();
+    let disp = p.display().map(|d| d.as_bytes().to_vec());
+    if disp != want.display {
+        return Err(format!(
+            "display() = {:?}, expected {:?}",
+            disp.as_deref().map(|b| Q(b)),
+            want.display.as_deref().map(|b| Q(b))
+        ));
+    }
+    ev.eval();
+    let pres = p.is_preserve();
+    if pres != want.preserve {
+        return Err(format!("is_preserve() = {pres}, expected {}", want.preserve));
+    }
+
+    // Cross-view law on the observations themselves: the four file views
+    // hold the same files in the same order.
+    ev.eval();
+    let fi = files_of(&install);
+    let fu = files_of(&uninstall);
+    if fi != files || fu != files || prefixed.len() != files.len() {
+        return Err(format!(
+            "file views disagree: files() = {}, files in install_cmds() = {}, in uninstall_cmds() = {}, files_prefixed() = {}",
+            shows(&files),
+            shows(&fi),
+            shows(&fu),
+            shows(&prefixed)
+        ));
+    }
+    for (f, pf) in files.iter().zip(&prefixed) {
+        let ok = pf.len() > f.len() && pf.ends_with(f) && pf[pf.len() - f.len() - 1] == b'/';
+        if !ok {
+            return Err(format!(
+                "files_prefixed() element {:?} is not <dir>/ + files() element {:?}",
+                Q(pf),
+                Q(f)
+            ));
+        }
+    }
+    Ok(want)
+}
+
+/// Ignore-pattern / prefix / multiplicity classes of a sequence, for the
+/// evidence histogram (a separate scan; nothing here is compared).
+fn classify(model: &[&PlistEntry]) -> Vec<String> {
+    use PlistEntry as E;
+    let mut c: Vec<String> = vec![];
+    let mut pending = false; // an @ignore since the last file
+    let mut run = 0usize; // consecutive @ignore entries
+    let mut since: Vec<&PlistEntry> = vec![]; // entries between the last @ignore and now
+    let mut seen_file = false;
+    let mut prefix: Option<Vec<u8>> = None;
+    let mut cwd_in_window = false;
+    let (mut names, mut displays, mut preserves, mut ignores) = (0, 0, 0, 0);
+    for &e in model {
+        match e {
+            E::Ignore => {
+                ignores += 1;
+                run = if pending && since.is_empty() { run + 1 } else { 1 };
+                if run >= 2 {
+                    c.push("ign/consecutive".into());
+                }
+                pending = true;
+                since.clear();
+                cwd_in_window = false;
+            }
+            E::File(_) => {
+                if pending {
+                    c.push(match since.len() {
+                        0 => "ign/adjacent".to_string(),
+                        1 => "ign/separated-by-1".to_string(),
+                        2 => "ign/separated-by-2".to_string(),
+                        3 => "ign/separated-by-3".to_string(),
+                        _ => "ign/separated-by-4+".to_string(),
+                    });
+                    for s in &since {
+                        c.push(format!("ign/separator/{}", kind_name(s)));
+                    }
+                    if !seen_file {
+                        c.push("ign/before-first-file".into());
+                    }
+                    if cwd_in_window {
+                        c.push("cwd/changed-between-ignore-and-file".into());
+                    }
+                } else {
+                    match &prefix {
+                        None => c.push("cwd/none-yet".into()),
+                        Some(p) => {
+                            let utf8 = std::str::from_utf8(p).is_ok();
+                            let slash = p.last() == Some(&b'/');
+                            c.push(format!(
+                                "cwd/{}/{}",
+                                if utf8 { "utf8" } else { "non-utf8" },
+                                if slash { "trailing-slash" } else { "no-trailing-slash" }
+                            ));
+                        }
+                    }
+                }
+                pending = false;
+                run = 0;
+                since.clear();
+                seen_file = true;
+            }
+            other => {
+                if pending {
+                    since.push(other);
+                }
+                match other {
+                    E::Cwd(d) => {
+                        if pending {
+                            cwd_in_window = true;
+                        }
+                        prefix = Some(d.as_bytes().to_vec());
+                    }
+                    E::Name(_) => names += 1,
+                    E::Display(_) => displays += 1,
+                    E::PkgOpt(_) => preserves += 1,
+                    _ => {}
+                }
+            }
+        }
+    }
+    if pending {
+        c.push("ign/trailing".into());
+    }
+    if ignores == 0 {
+        c.push("ign/none".into());
+    }
+    let mult = |n: usize| match n {
+        0 => "absent",
+        1 => "once",
+        _ => "repeated",
+    };
+    c.push(format!("name/{}", mult(names)));
+    c.push(format!("display/{}", mult(displays)));
+    c.push(format!("preserve/{}", mult(preserves)));
+    c.push(format!(
+        "length/{}",
+        match model.len() {
+            0 => "0",
+            1..=5 => "1-5",
+            6..=15 => "6-15",
+            _ => "16-30",
+        }
+    ));
+    c.sort();
+    c.dedup();
+    c
+}
+
+fn kind_name(e: &PlistEntry) -> &'static str {
+    use PlistEntry as E;
+    #[allow(unreachable_patterns)]
+    match e {
+        E::File(_) => "file",
+        E::Cwd(_) => "cwd",
+        E::Exec(_) => "exec",
+        E::UnExec(_) => "unexec",
+        E::Mode(_) => "mode",
+        E::PkgOpt(_) => "option",
+        E::Owner(_) => "owner",
+        E::Group(_) => "group",
+        E::Comment(_) => "comment",
+        E::Ignore => "ignore",
+        E::Name(_) => "name",
+        E::PkgDir(_) => "pkgdir",
+        E::DirRm(_) => "dirrm",
+        E::Display(_) => "display",
+        E::PkgDep(_) => "pkgdep",
+        E::BldDep(_) => "blddep",
+        E::PkgCfl(_) => "pkgcfl",
+        _ => "other",
+    }
+}
+
+fn check_seq(ev: &mut Ev, scenario: &str, lines: &[Line], doc: &[u8]) -> CaseResult {
+    let model: Vec<&PlistEntry> = lines.iter().filter_map(|l| l.entry()).collect();
+    let p = match Plist::from_bytes(doc) {
+        Ok(p) => p,
+        Err(_) => {
+            ev.count("skipped/parse-failed");
+            return Ok(());
+        }
+    };
+    if model.len() != lines.len() || debug_entries(&p).ok() != Some(debug_model(&model)) {
+        ev.count("skipped/entries-differ-from-generated");
+        return Ok(());
+    }
+    let want = compare(ev, &p, &model)?;
+    ev.count(&format!("scenario/{scenario}"));
+    for c in classify(&model) {
+        ev.count(&c);
+    }
+    ev.add("files/kept", want.files.len() as u64);
+    ev.add("files/ignored", want.ignored_files as u64);
+    if want.ignored_files >= 1 && want.cwd_changes >= 1 {
+        ev.nontrivial(hash_strs(&[doc]));
+    }
+    Ok(())
+}
+
+pub fn run(cx: &mut Cx) {
+    cx.default_budget();
+    for k in [
+        "ign/none",
+        "ign/adjacent",
+        "ign/consecutive",
+        "ign/trailing",
+        "ign/separated-by-1",
+        "ign/separated-by-2",
+        "ign/separated-by-3",
+        "ign/before-first-file",
+        "cwd/none-yet",
+        "cwd/utf8/trailing-slash",
+        "cwd/utf8/no-trailing-slash",
+        "cwd/non-utf8/trailing-slash",
+        "cwd/non-utf8/no-trailing-slash",
+        "cwd/changed-between-ignore-and-file",
+        "name/absent",
+        "name/once",
+        "name/repeated",
+        "display/absent",
+        "display/once",
+        "display/repeated",
+        "preserve/absent",
+        "preserve/once",
+        "preserve/repeated",
+        "length/0",
+        "length/16-30",
+    ] {
+        cx.ev.require(k);
+    }
+    for k in gp::OTHER_KINDS {
+        let e = match gp::entry(*k, Some(b"preserve")).or_else(|| gp::entry(*k, None)) {
+            Some(e) => e,
+            None => continue,
+        };
+        cx.ev.require(&format!("ign/separator/{}", kind_name(&e)));
+    }
+    let (shard, nshards) = (cx.shard as usize, cx.nshards as usize);
+    let n = cx.per_shard(208, 20_000, 400_000, 3_200_000);
+    let mut r = cx.stream("sequences");
+    for k in 0..n as usize {
+        let g = k * nshards + shard;
+        let sc = g % gp::SCENARIOS.len();
+        let rot = g / gp::SCENARIOS.len();
+        let lines = gp::sequence(&mut r, sc, rot);
+        let density = r.below(4);
+        let lay = gp::layout(&mut r, lines.len(), density);
+        let items: Vec<&[u8]> = lines.iter().map(|l| &l.bytes[..]).collect();
+        let doc = gp::render(&items, &lay);
+        let scenario = gp::SCENARIOS[sc];
+        cx.check(
+            || format!("sequence ({scenario}, {} entries) {:?}", lines.len(), Q(&doc)),
+            |ev| check_seq(ev, scenario, &lines, &doc),
+        );
+    }
+}
